@@ -83,6 +83,18 @@ def _corpus():
                     [('if', ('expr', ('bin', '==', ('var', 'j'), num(2))), [('break',)], None),
                      ('print', ('expr', ('bin', '+', ('bin', '*', ('var', 'i'), num(10)), ('var', 'j'))))]),
                    ('println', ('var', 'i'))])], pop))
+    # a routine that returns from inside two nested loops (the outer one over lights), called
+    # from a loop over other lights and from inside an expression: resumes right after the call
+    v = lambda n: ('var', n)  # noqa
+    out.append(([('define', 'deep', ['k'],
+                  [('repeat', ('all', 'M', None),
+                    [('repeat', ('count', num(3)),
+                      [('if', ('expr', ('bin', '>', v('k'), num(0))), [('return', v('k'))], None)])]),
+                   ('return', num(0))]),
+                 ('repeat', ('in', [('light', ('str', 'Top')), ('light', ('str', 'Lamp')),
+                                    ('light', ('str', 'Strip'))], 'L', None),
+                  [('print', ('call', 'deep', [num(2)])), ('action', 'on', [('light', v('L'))])]),
+                 ('print', ('expr', ('bin', '+', num(100), ('call', 'deep', [num(2)]))))], pop))
     return out
 
 
